@@ -62,10 +62,8 @@ Definition agrees (k : case) : bool :=
   end.
 
 (** the guard of the guarded theorem, on the case *)
-(** the guard, on the case: no tick exposed to the decoder's second rounding (C10 F1), well-formed write sets *)
-Definition in_domain (k : case) : bool :=
-  negb (existsb (existsb (f1_exposed get_ticks_pf dec_pf)) (mk_tgs k))
-  && run_okb get_ticks_pf dec_pf [] (mk_tgs k).
+(** the guard of the guarded theorem, on the case: well-formed write sets *)
+Definition in_domain (k : case) : bool := run_okb get_ticks_pf dec_pf [] (mk_tgs k).
 
 (** the property evaluated on the model: the replica replays everything and has converged *)
 Definition model_converges (k : case) : bool :=
